@@ -73,7 +73,7 @@ sim::Json generate(const std::string& tier, uint64_t seed, uint64_t index) {
   s.set("solve_iters", 0);
   s.set("basis_salt", (long)rng.below(6));
   s.set("iis_salt", (long)rng.below(8));
-  s.set("dual_mode", (long)(rng.chance(0.4) ? 0 : rng.range(1, 3)));
+  s.set("dual_mode", (long)(rng.chance(0.4) ? 0 : rng.range(1, 4)));
   s.set("orig_nvars", m.nvars());
   s.set("orig_ncons", (long)m.cons.size());
   // history of direct transfers through the presolver; the first op is repeated at the end
